@@ -325,6 +325,7 @@ class ContractionProcessor:
         "track_flops",
         "flops",
         "flops_limit",
+        "flops_factor",
     )
 
     def __init__(
@@ -370,6 +371,8 @@ class ContractionProcessor:
         self.track_flops = track_flops
         self.flops = 0
         self.flops_limit = flops_limit
+        # combined size of indices dropped by ``simplify_batch``
+        self.flops_factor = 1
 
     def copy(self):
         new = ContractionProcessor.__new__(ContractionProcessor)
@@ -383,6 +386,7 @@ class ContractionProcessor:
         new.track_flops = self.track_flops
         new.flops = self.flops
         new.flops_limit = self.flops_limit
+        new.flops_factor = self.flops_factor
         return new
 
     def neighbors(self, i):
@@ -451,7 +455,9 @@ class ContractionProcessor:
         jlegs = self.pop_node(j)
 
         if self.track_flops:
-            self.flops += compute_flops(ilegs, jlegs, self.sizes)
+            self.flops += self.flops_factor * compute_flops(
+                ilegs, jlegs, self.sizes
+            )
 
         if new_legs is None:
             new_legs = compute_contracted(ilegs, jlegs, self.appearances)
@@ -470,6 +476,8 @@ class ContractionProcessor:
             if len(ix_nodes) >= len(self.nodes):
                 ix_to_remove.append(ix)
         for ix in ix_to_remove:
+            # n.b. the index is still involved in every single contraction
+            self.flops_factor *= self.sizes[ix]
             self.remove_ix(ix)
 
     def simplify_single_terms(self):
